@@ -457,7 +457,10 @@ def runOp (s : Sexp) : String :=
   | .list (.atom "descconc" :: _) => "unsupported"
   | .list (.atom "jconc" :: _) => "unsupported"
   | .list (.atom "regintern" :: _) => "unsupported"
-  | .list (.atom "bqptr" :: _) => "unsupported"   -- inputs nested deeper than the cut of a recursive type
+  | .list (.atom "bqptr" :: _) => "unsupported"
+  | .list [.atom "entryorder"] => "unsupported"
+  | .list [.atom "reginterntag"] => "unsupported"
+  | .list [.atom "regmapkind"] => "unsupported"   -- inputs nested deeper than the cut of a recursive type
   | .list [.atom "internmany", .atom _] => "unsupported"
   -- pointer-keyed maps: keys are identities, outside the value model
   | .list [.atom "ptrkeys", .atom _] => "unsupported"
